@@ -18,6 +18,8 @@ for d in seeded/S*; do
   sid=$(basename $d | cut -d- -f1)
   if [ -n "$sel" ] && ! echo " $sel " | grep -q " $sid "; then continue; fi
   checks=$(python3 -c "import json;print(' '.join(json.load(open('$d/meta.json'))['detected_by_quick_checks']))")
+  # OWN=1: only the first listed check (the check of the property the change was written against)
+  if [ -n "${OWN:-}" ]; then checks=$(echo $checks | cut -d' ' -f1); fi
   wt=/tmp/wt/sweep-$sid
   git -C /repo worktree remove --force $wt >/dev/null 2>&1
   git -C /repo worktree add -q --detach $wt HEAD || { echo "$sid worktree failed"; continue; }
